@@ -218,3 +218,47 @@ CHECKS["C08"] = {
     "outside": ["class-based context formats (5.2/6.2), GPOS 2.2/3/4/5/6, GSUB 8.1 round trips", "extension subtables for lookup lists beyond 64 KiB", "gtab.Info with script/language/feature lists (x/text language tags)", "gdef.Table"],
     "assumptions": ["coverage tables have indices 0..n-1 in increasing glyph order (value domain)", "class 0 entries are not stored (normal form)"],
 }
+
+_S = ["c06.go", "refshaper.go", "common.go"]
+CHECKS["C06"] = {
+    "harnesses": [
+        H("opentype/gtab", _S, "VerifH_C06_single", ["applied"], quick={"params": {"maxlen": 2}, "timeout": 280, "shards": 4}, thorough={"params": {"maxlen": 4}, "timeout": 2400, "shards": 4}),
+        H("opentype/gtab", _S, "VerifH_C06_multiple", ["applied"], quick={"params": {"maxlen": 2}, "timeout": 280}, thorough={"params": {"maxlen": 3}, "timeout": 2400}),
+        H("opentype/gtab", _S, "VerifH_C06_ligature", ["applied"], quick={"params": {"maxlen": 2}, "timeout": 280}, thorough={"params": {"maxlen": 3}, "timeout": 2400}),
+        H("opentype/gtab", _S, "VerifH_C06_pair", ["applied"], quick={"params": {"maxlen": 2}, "timeout": 280}, thorough={"params": {"maxlen": 3}, "timeout": 2400}),
+        H("opentype/gtab", _S, "VerifH_C06_context", ["applied"], quick={"params": {"maxlen": 2}, "timeout": 280}, thorough={"params": {"maxlen": 3}, "timeout": 2400}),
+    ],
+    "bounds": {"quick": "lookup lists of concrete shape (GSUB 1.1, 1.2, 2.1 (+ a second lookup in 3 orders), 3.1, 4.1 with two competing ligatures, GPOS 1.1, 2.1 with/without second record, sequence context 5.1 with nested single substitutions) with symbolic replacement ids / value records / nested action indices; lookup flags symbolic over ignore-base/ligature/marks, mark filtering set and mark attachment type 0..2; GDEF class, mark attachment class and mark-set membership of one alphabet glyph symbolic; glyph sequences of length 1..3 [2..3 for ligature/pair/context] with symbolic ids over a 4-glyph alphabet",
+               "thorough": "sequences up to length 4-5"},
+    "outside": ["GSUB 8.1, class/coverage based context formats, chained contexts, GPOS 2.2/3/4/5/6", "nested lookups that change the sequence length inside a context", "sequences longer than 5, alphabets larger than 4"],
+    "assumptions": ["reference shaper written from the OpenType specification (harness/opentype/gtab/refshaper.go) is the oracle", "an undefined mark filtering set contains no glyph"],
+}
+
+_S7 = ["c07.go", "c06.go", "refshaper.go", "common.go"]
+CHECKS["C07"] = {
+    "harnesses": [
+        H("opentype/gtab", _S7, "VerifH_C07_reader", ["accepted"], quick={"params": {"maxwords": 3}, "timeout": 280, "shards": 6}, thorough={"params": {"maxwords": 8}, "timeout": 2400, "shards": 6}),
+        H("opentype/gtab", _S7, "VerifH_C07_flags", ["applied"], quick={"timeout": 280}),
+        H("opentype/gtab", _S7, "VerifH_C07_history", ["applied"], quick={"timeout": 280, "shards": 4}),
+        H("opentype/gtab", _S7, "VerifH_C07_term", ["terminated"], quick={"timeout": 280}),
+        H("opentype/gtab", _S7, "VerifH_C06_ligature", ["applied"], quick={"params": {"maxlen": 2}, "timeout": 280}),
+        H("opentype/gtab", _S7, "VerifH_C06_multiple", ["applied"], quick={"params": {"maxlen": 2}, "timeout": 280}),
+    ],
+    "bounds": {"quick": "GSUB subtable readers (types 1-6, every format) on arbitrary 6..12 byte inputs whose 16-bit words are <= the input length, the accepted subtable applied to symbolic sequences of length 1..2; lookup flags fully symbolic with mark filtering set index 0..3 against GDEF tables defining 0, 1 or 2 sets; Context reuse: a first Apply matching a rule with {1,63,64,70} nested actions followed by a second Apply on a symbolic sequence, compared with a fresh Context and the reference; a self-referential context rule with symbolic action indices; text conservation on the ligature and multiple-substitution harnesses of C06",
+               "thorough": "readers on up to 22 byte inputs"},
+    "outside": ["gtab.Read on whole adversarial tables (per subtable only)", "GPOS readers", "sequences of length up to 200", "Layouter reuse (sfnt.Layouter)", "map iteration order inside FindLookups (C15)"],
+    "assumptions": ["reference shaper (refshaper.go)", "reader inputs restricted to small 16-bit words (counts/offsets within the input)"],
+}
+
+_R = ["c10.go", "common.go"]
+CHECKS["C10"] = {
+    "harnesses": [
+        H(".", _R, "VerifH_C10_glyf", ["subset"], quick={"params": {"maxlisted": 1}, "timeout": 280}, thorough={"params": {"maxlisted": 2}, "timeout": 2400}),
+        H(".", _R, "VerifH_C10_cmap", ["subset"], quick={"timeout": 280}),
+        H(".", _R, "VerifH_C10_layout", ["subset", "ligature", "kerning"], quick={"timeout": 280}),
+    ],
+    "bounds": {"quick": "TrueType font of 6 glyphs (3 simple, 2 composites with symbolic component ids incl. a nested composite, one empty glyph); glyph lists [0, g1] [thorough: [0, g1, g2]] with symbolic distinct members in any order, nondeterministic map iteration order; format 12 cmap over 3 characters with symbolic target glyphs; one GSUB 4.1 ligature rule and one GPOS 2.1 pair among 4 glyphs with symbolic glyph lists of 2..3 members",
+               "thorough": "3 listed glyphs"},
+    "outside": ["CFF fonts (simple and CID-keyed) and their private dictionaries / font matrices / built-in encodings", "GSUB 1.1 rules, format 4 cmaps", "writing and re-reading the subset", "fonts with more than 6 glyphs"],
+    "assumptions": ["glyph names identify outlines when checking that component references and ligature results point to the same outline"],
+}
